@@ -4,6 +4,8 @@
   §1 net.SplitHostPort on the three well-formed authority shapes.
   §2 net.ParseIP: dotted quads are accepted; a string without ':' that has a byte other than a
      digit or '.' is rejected.
+  §4 url.URL.Hostname on the well-formed authority shapes (`host:port`, `[v6]:port`, no port).
+  §5 a certificate that does not verify for the origin's name: 502, nothing delivered.
   §3 validity window arithmetic; what is ASSUMED of x509 verification (`FreshVerifies`, a hypothesis
      of the theorems — never an axiom) and the certificate served for every cache state / history.
 -/
@@ -361,6 +363,70 @@ theorem x509ish_fresh (validity : Int) : FreshVerifies x509ish validity := by
   intro n t t' h1 h2
   simp only [fresh] at h1 h2
   simp [x509ish, fresh, h1, h2, eqFold_refl]
+
+/-! ## §4 url.URL.Hostname -/
+
+theorem digits_no_colon {p : Bytes} (hp : p.all isDigit = true) : (58 : UInt8) ∉ p := by
+  intro hm
+  have := List.all_eq_true.mp hp 58 hm
+  revert this
+  decide
+
+theorem plain_head {h : Bytes} (h2 : (91 : UInt8) ∉ h) : (h.head? == some 91) = false := by
+  cases h with
+  | nil => rfl
+  | cons a as =>
+    have ha : a ≠ 91 := fun e => h2 (by simp [e])
+    simpa using ha
+
+/-- `host:port` with a numeric (possibly empty) port: the host -/
+theorem urlHostname_host_port {h p : Bytes} (h2 : (91 : UInt8) ∉ h) (hp : p.all isDigit = true) :
+    urlHostname (h ++ 58 :: p) = h := by
+  unfold urlHostname
+  simp only [splitLastColon_append h p (digits_no_colon hp), hp, if_true, plain_head h2,
+    Bool.false_and, Bool.false_eq_true, if_false]
+
+/-- `[v]:port`: what is between the brackets -/
+theorem urlHostname_bracketed (v : Bytes) {p : Bytes} (hp : p.all isDigit = true) :
+    urlHostname (91 :: (v ++ 93 :: 58 :: p)) = v := by
+  have e : (91 : UInt8) :: (v ++ 93 :: 58 :: p) = (91 :: (v ++ [93])) ++ 58 :: p := by simp
+  unfold urlHostname
+  rw [e]
+  simp only [splitLastColon_append _ p (digits_no_colon hp), hp, if_true]
+  have gl : (91 :: (v ++ [93]) : Bytes).getLast? = some 93 := by
+    rw [← List.cons_append, List.getLast?_append]
+    simp
+  simp [gl]
+
+/-- no port and no bracket: unchanged -/
+theorem urlHostname_plain {h : Bytes} (h1 : (58 : UInt8) ∉ h) (h2 : (91 : UInt8) ∉ h) :
+    urlHostname h = h := by
+  unfold urlHostname
+  simp only [splitLastColon_none h1, plain_head h2, Bool.false_and, Bool.false_eq_true, if_false]
+
+set_option maxRecDepth 100000 in
+theorem dec_plain : ∀ n : Fin 256,
+    (58 : UInt8) ∉ dec n.val ∧ (91 : UInt8) ∉ dec n.val ∧ (93 : UInt8) ∉ dec n.val ∧
+      dec n.val ≠ [] := by decide
+
+theorem dotted_plain {a b c d : Nat} (ha : a < 256) (hb : b < 256) (hc : c < 256) (hd : d < 256) :
+    Plain (dotted a b c d) ∧ dotted a b c d ≠ [] := by
+  have A := dec_plain ⟨a, ha⟩
+  have B := dec_plain ⟨b, hb⟩
+  have C := dec_plain ⟨c, hc⟩
+  have D := dec_plain ⟨d, hd⟩
+  simp only at A B C D
+  refine ⟨⟨?_, ?_, ?_⟩, ?_⟩ <;> simp [dotted, A, B, C, D]
+
+/-! ## §5 origin verification -/
+
+theorem interceptedTo_refused {vf : Verifier} {c : Cert} {a : Bytes} {now : Int} (allowHTTP : Bool)
+    (h : originVerifies vf c a now = false) :
+    interceptedTo vf [] allowHTTP false c a now = .refused502 ∧
+      (interceptedTo vf [] allowHTTP false c a now).delivered = false := by
+  unfold interceptedTo
+  rw [h]
+  cases allowHTTP <;> decide
 
 end C07
 end FwdVerif
